@@ -417,6 +417,9 @@ func opC18(w *World, s *Step) (string, string) {
 		sched := s.Schedule
 		if os.Getenv("IKESIM_C18_SEQUENTIAL") != "" {
 			sched = nil // tasks one after the other, nobody is ever parked (used to classify a watchdog hit)
+			if os.Getenv("IKESIM_C18_DEGRADED") != "" {
+				w.stats.inc("c18_serialized_phase_degraded_to_sequential")
+			}
 		}
 		inter, yields, switches, sig = runSerialized(s.Tasks, sched)
 		if d := serializedDeferred - before; d > 0 {
